@@ -18,13 +18,14 @@ VARIABLES l,          \* position in Trace
           subInfo,    \* id -> [part, size, late]   late = submitted after Close was called
           outcome,    \* id -> "none" | "ok" | "err"
           okAt,       \* id -> <<part, offset>> of its success
+          chosen,     \* id -> partition the (wrapped) partitioner chose, when attributable
           log,        \* part -> sequence of ids appended by the brokers
           wire,       \* part -> sequence of distinct batches seen on the wire [epoch, seq, ids]
           icount,     \* <<chain, id>> -> number of interceptor invocations
           phase,      \* [closeCalled, succClosed, errClosed, closeRet, hung]
           viol, stats
 
-vars == <<l, cfg, submitted, subInfo, outcome, okAt, log, wire, icount, phase, viol, stats>>
+vars == <<l, cfg, submitted, subInfo, outcome, okAt, chosen, log, wire, icount, phase, viol, stats>>
 
 E == Trace[l]
 V(c) == {<<E.t, E.i, c>>}
@@ -39,7 +40,7 @@ Phase0 == [closeCalled |-> FALSE, succClosed |-> FALSE, errClosed |-> FALSE, clo
 Stats0 == [traces |-> 0, events |-> 0, successes |-> 0, errors |-> 0, appends |-> 0, requests |-> 0,
            retried |-> 0, unsteered |-> 0, skipped |-> 0, gates |-> 0, simerr |-> 0]
 
-Init == /\ l = 1 /\ cfg = NoCfg /\ submitted = {} /\ subInfo = <<>> /\ outcome = <<>> /\ okAt = <<>>
+Init == /\ l = 1 /\ cfg = NoCfg /\ submitted = {} /\ subInfo = <<>> /\ outcome = <<>> /\ okAt = <<>> /\ chosen = <<>>
         /\ log = <<>> /\ wire = <<>> /\ icount = <<>> /\ phase = Phase0 /\ viol = {} /\ stats = Stats0
 
 RECURSIVE FirstCopies(_, _)
@@ -58,7 +59,7 @@ Tick == [stats EXCEPT !.events = @ + 1]
 TReset ==
   /\ E.ev = "reset"
   /\ cfg' = E
-  /\ submitted' = {} /\ subInfo' = <<>> /\ outcome' = <<>> /\ okAt' = <<>> /\ log' = <<>> /\ wire' = <<>>
+  /\ submitted' = {} /\ subInfo' = <<>> /\ outcome' = <<>> /\ okAt' = <<>> /\ chosen' = <<>> /\ log' = <<>> /\ wire' = <<>>
   /\ icount' = <<>> /\ phase' = Phase0
   /\ stats' = Bump("traces")
   /\ UNCHANGED viol
@@ -69,7 +70,7 @@ TSubmit ==
   /\ subInfo' = Put(subInfo, E.id, [part |-> E.part, size |-> E.size, late |-> phase.closeCalled])
   /\ outcome' = Put(outcome, E.id, "none")
   /\ stats' = Tick
-  /\ UNCHANGED <<cfg, okAt, log, wire, icount, phase, viol>>
+  /\ UNCHANGED <<cfg, okAt, chosen, log, wire, icount, phase, viol>>
 
 \* ---- terminal events (C01, C02, C04, C05)
 TSuccess ==
@@ -87,12 +88,14 @@ TSuccess ==
           \cup When(known /\ outcome[id] # "none", "outcome_twice")
           \cup When(known /\ cfg.acks # "none" /\ ~offOK, "success_offset_holds_message")
           \cup When(known /\ cfg.partitioner = "manual" /\ subInfo[id].part # E.part, "success_partition_is_chosen")
+          \cup When(known /\ cfg.partitioner # "manual" /\ id \in DOMAIN chosen /\ chosen[id] >= 0 /\ chosen[id] # E.part,
+                    "success_partition_is_chosen")
           \cup When(known /\ cfg.acks # "none" /\
                     \E b \in samePartOk : (b < id /\ okAt[b][2] >= E.off) \/ (b > id /\ okAt[b][2] <= E.off),
                     "success_offset_order")
           \cup When(known /\ cfg.idem /\ CountIn(lg, id) # 1, "success_in_log_exactly_once")
   /\ stats' = Bump("successes")
-  /\ UNCHANGED <<cfg, submitted, subInfo, log, wire, icount, phase>>
+  /\ UNCHANGED <<cfg, submitted, subInfo, chosen, log, wire, icount, phase>>
 
 TError ==
   /\ E.ev = "error"
@@ -104,7 +107,7 @@ TError ==
           \cup When(~known, "outcome_for_unknown")
           \cup When(known /\ outcome[id] # "none", "outcome_twice")
   /\ stats' = Bump("errors")
-  /\ UNCHANGED <<cfg, submitted, subInfo, okAt, log, wire, icount, phase>>
+  /\ UNCHANGED <<cfg, submitted, subInfo, okAt, chosen, log, wire, icount, phase>>
 
 \* ---- broker side (C02, C04, C05, C16)
 TAppend ==
@@ -120,7 +123,7 @@ TAppend ==
           \cup When(~Increasing(FirstCopies(new, {})), "log_order")
           \cup When(cfg.idem /\ ~NoDup(new), "no_duplicate_append")
   /\ stats' = Bump("appends")
-  /\ UNCHANGED <<cfg, submitted, subInfo, outcome, okAt, wire, icount, phase>>
+  /\ UNCHANGED <<cfg, submitted, subInfo, outcome, okAt, chosen, wire, icount, phase>>
 
 \* one batch of a produce request against the batches seen before for its partition
 BatchClauses(b) ==
@@ -154,7 +157,7 @@ TRecv ==
        \cup When(cfg.maxReqSize > 0 /\ E.wire > cfg.maxReqSize, "max_request_size")
   /\ wire' = AddBatches(wire, E.batches)
   /\ stats' = Bump("requests")
-  /\ UNCHANGED <<cfg, submitted, subInfo, outcome, okAt, log, icount, phase>>
+  /\ UNCHANGED <<cfg, submitted, subInfo, outcome, okAt, chosen, log, icount, phase>>
 
 \* ---- interceptors (C18)
 TIntercept ==
@@ -168,7 +171,7 @@ TIntercept ==
           \cup When(n >= 1, "intercept_once")
           \cup When(E.chain > 1 /\ Get(icount, <<E.chain - 1, E.id>>, 0) = 0, "intercept_chain_order")
   /\ stats' = Tick
-  /\ UNCHANGED <<cfg, submitted, subInfo, outcome, okAt, log, wire, phase>>
+  /\ UNCHANGED <<cfg, submitted, subInfo, outcome, okAt, chosen, log, wire, phase>>
 
 \* ---- shutdown (C01, C12)
 TPhase ==
@@ -183,7 +186,7 @@ TPhase ==
        \cup When(E.ev = "hang" /\ E.what = "submit", "input_accepts")
        \cup When(E.ev = "noreq", "flush_without_more_input")
   /\ stats' = Tick
-  /\ UNCHANGED <<cfg, submitted, subInfo, outcome, okAt, log, wire, icount>>
+  /\ UNCHANGED <<cfg, submitted, subInfo, outcome, okAt, chosen, log, wire, icount>>
 
 \* end of a scenario: the producer has been closed (or Close hung)
 TFin ==
@@ -195,27 +198,33 @@ TFin ==
                  \E m \in submitted : ~subInfo[m].late /\ \E c \in 1..cfg.interceptors : Get(icount, <<c, m>>, 0) = 0,
                  "intercept_missing")
   /\ stats' = Tick
-  /\ UNCHANGED <<cfg, submitted, subInfo, outcome, okAt, log, wire, icount, phase>>
+  /\ UNCHANGED <<cfg, submitted, subInfo, outcome, okAt, chosen, log, wire, icount, phase>>
+
+TChose ==
+  /\ E.ev = "chose"
+  /\ chosen' = Put(chosen, E.id, E.part)
+  /\ stats' = Tick
+  /\ UNCHANGED <<cfg, submitted, subInfo, outcome, okAt, log, wire, icount, phase, viol>>
 
 TOther ==
-  /\ E.ev \in {"meta", "move", "dedup", "reply", "drop", "chose", "gate", "gate_timeout", "unsteered", "skip", "sim_error"}
+  /\ E.ev \in {"meta", "move", "dedup", "reply", "drop", "gate", "gate_timeout", "unsteered", "skip", "sim_error"}
   /\ stats' = CASE E.ev = "unsteered" -> Bump("unsteered")
                 [] E.ev = "skip" -> Bump("skipped")
                 [] E.ev = "gate" -> Bump("gates")
                 [] E.ev = "sim_error" -> Bump("simerr")
                 [] E.ev = "reply" /\ (\E k \in DOMAIN E.kinds : E.kinds[k][2] \notin {"ok", "dupwin"}) -> Bump("retried")
                 [] OTHER -> Tick
-  /\ UNCHANGED <<cfg, submitted, subInfo, outcome, okAt, log, wire, icount, phase, viol>>
+  /\ UNCHANGED <<cfg, submitted, subInfo, outcome, okAt, chosen, log, wire, icount, phase, viol>>
 
 TEnd ==
   /\ E.ev = "end"
   /\ PrintT(<<"VIOL", ToJson(viol)>>)
   /\ PrintT(<<"STATS", ToJson(stats)>>)
-  /\ UNCHANGED <<cfg, submitted, subInfo, outcome, okAt, log, wire, icount, phase, viol, stats>>
+  /\ UNCHANGED <<cfg, submitted, subInfo, outcome, okAt, chosen, log, wire, icount, phase, viol, stats>>
 
 Next == /\ l <= Len(Trace)
         /\ l' = l + 1
-        /\ (TReset \/ TSubmit \/ TSuccess \/ TError \/ TAppend \/ TRecv \/ TIntercept \/ TPhase \/ TFin \/ TOther \/ TEnd)
+        /\ (TReset \/ TSubmit \/ TChose \/ TSuccess \/ TError \/ TAppend \/ TRecv \/ TIntercept \/ TPhase \/ TFin \/ TOther \/ TEnd)
 Spec == Init /\ [][Next]_vars
 Accepted == TLCGet("stats").diameter - 1 = Len(Trace)
 =============================================================================
